@@ -1,10 +1,31 @@
 import GwModel.Drv.Codec
+import GwModel.Scrub
+import GwModel.Select
 /-! gwdrv: one JSON object per line in, one per line out (DESIGN §2.2). Core + Lean.Data.Json only. -/
 open Lean Codec
+
+partial def decPStep (j : Json) : Scrub.PStep :=
+  .mk (strList j "ip") ((getArr j "kids").map decPStep)
+
+def encPaths (ps : List (List String)) : Json :=
+  .arr (ps.map fun p => Json.arr (p.map Json.str).toArray).toArray
 
 def handle (j : Json) : Json :=
   match getStr j "op" with
   | "mono" => Json.mkObj [("data", encVal (Mono.mono (decCase j)))]
+  | "scrub" =>
+    let sel := Scrub.flatten ((getArr j "frags").map decFrag) ((getArr j "sels").map decSel)
+    match Scrub.scrubPaths sel ((getArr j "plan").map decPStep) with
+    | some ps => Json.mkObj [("paths", encPaths ps)]
+    | none => Json.mkObj [("err", .str "could not find field for point")]
+  | "select" =>
+    -- {"possible":[..],"configured":[..],"parent":"A","internal":"gw","order":["configured","parent","internal"]}
+    let order := (strList j "order").map fun s =>
+      if s == "configured" then Facts.PrioSource.configured else if s == "parent" then .parent
+      else if s == "internal" then .internal else .unknown
+    match Sel.choose (strList j "possible") (Sel.prioOf order (strList j "configured") (getStr j "parent") (getStr j "internal")) with
+    | some l => Json.mkObj [("loc", .str l)]
+    | none => Json.mkObj [("loc", .null)]
   | op => Json.mkObj [("bad-op", .str op)]
 
 partial def loop (h : IO.FS.Stream) (out : IO.FS.Stream) : IO Unit := do
